@@ -177,7 +177,14 @@ func Run(c *common.Ctx) error {
 		nodes[role] = n
 	}
 	// the application on the primary commits while it serves a write
-	nodes["primary"].app[true].onWrite = func() { commitOne(hp) }
+	// (one, two or three transactions: the cookie names the position the write left behind, not the first of them)
+	writes := 0
+	nodes["primary"].app[true].onWrite = func() {
+		writes++
+		for k := 0; k < 1+writes%3; k++ {
+			commitOne(hp)
+		}
+	}
 
 	client := &http.Client{CheckRedirect: func(*http.Request, []*http.Request) error { return http.ErrUseLastResponse }, Timeout: 10 * time.Second}
 	var cases []reqCase
@@ -303,7 +310,7 @@ func Run(c *common.Ctx) error {
 		}
 		if !isRead && !pass && rc.Role == "primary" && rc.DBThere {
 			if !hasCookie || setCookie < posAfter || (rc.DBThere && setCookie < cur+1) {
-				c.Violate(key+":cookie", fmt.Sprintf("cookie after a write on the primary is %d (present %v); the application committed transaction %d while serving it", setCookie, hasCookie, cur+1), rep)
+				c.Violate(key+":cookie", fmt.Sprintf("cookie after a write on the primary is %d (present %v); the application committed transactions %d..%d while serving it", setCookie, hasCookie, cur+1, posAfter), rep)
 			}
 		}
 		// ---- correspondence case ----
